@@ -240,7 +240,11 @@ func buildWorkload(dir string, w wlSpec) *workload {
 // ---------------------------------------------------------------- tails
 
 var tailNames = []string{"absent", "zeros-to-4k", "ff-fill", "a5-fill", "counting", "magic1-only", "magic1+junk",
-	"last-state-copy-flipped-time", "last-state-copy-flipped-magic2"}
+	"last-state-copy-flipped-time", "last-state-copy-flipped-magic2",
+	// stale blocks: several well-framed state records (magic1 ... magic2) whose
+	// checksum does not match; repair's scanner sees each as a state that its
+	// exponential-then-binary search has to classify as bad
+	"2x-stale-state-record", "4x-stale-state-record"}
 
 func makeTail(kind int, base []byte, L int64, wl *workload) []byte {
 	switch kind {
@@ -274,6 +278,20 @@ func makeTail(kind int, base []byte, L int64, wl *workload) []byte {
 			t[10] ^= 0x40 // time stamp: checksum no longer matches
 		} else {
 			t[stateLen-1] ^= 0x01 // last byte of magic2
+		}
+		return t
+	case 9, 10:
+		e := wl.Ends[len(wl.Ends)-1]
+		n := 2
+		if kind == 10 {
+			n = 4
+		}
+		var t []byte
+		for i := 0; i < n; i++ {
+			r := append([]byte(nil), base[e-stateLen:e]...)
+			r[10] ^= byte(0x40 >> i) // time stamp: checksum no longer matches
+			t = append(t, r...)
+			t = append(t, byte(0x61+i), byte(0x62+i), byte(0x63+i))
 		}
 		return t
 	}
